@@ -1263,6 +1263,12 @@ pub fn run(a: &Args) {
         }
         // the layer above the writer: step functions of StreamingPersistence on a virtual clock, WriteBuffer
         crate::c12x::run_all(&mut out, &mut rng, a.n / 10 + 20, false).await;
+        // the concrete ObjectStore implementations (InMemory, LocalFs, FaultStore) under the model's store
+        crate::c12fs::run_all(&mut out, &mut rng, a.n / 30 + 10).await;
+        for _ in 0..(a.n / 2000 + 2) {
+            let mut r = rng.fork();
+            crate::c12fs::localfs_pipeline(&mut out, &mut r).await;
+        }
     });
     // the real worker pipeline (sink, bridge, bounded mailbox, actor) under tokio's paused clock
     let rt2 = tokio::runtime::Builder::new_current_thread().enable_all().start_paused(true).build().unwrap();
